@@ -129,7 +129,11 @@ pub fn check(c: &Case10, st: &mut Stats, hv: &std::path::Path, scratch: &std::pa
     let n = cmds.len().max(1);
     // speculation horizon of the optimiser: <= 100 jumps per top-level command
     let horizon = (100 * n * n).min(30_000);
-    let m = run_model(&cmds, "", horizon, 25, false);
+    // (the model goes on past outputs >= 2^32 - what is written there is unspecified, but the values keep growing)
+    let m = run_model_opts(&cmds, Default::default(), horizon, 25, false, true);
+    if std::env::var("HV_DEBUG").is_ok() {
+        eprintln!("c10 debug: horizon {} end {:?} steps {} max_size9 {} first_io {:?}", horizon, m.end, m.steps, m.flags.max_size9, m.flags.first_io_pop);
+    }
     if matches!(m.end, End::Stop(Stop::TooBig)) {
         st.exclude("values explode within the speculation horizon");
         return Ok(());
